@@ -166,7 +166,7 @@ def restoreFile (g : Folder) (n : Name) : Folder × Bool :=
 /-- `Folder.restore()`: clear the flag, start the countdown unless one is running. -/
 def restore (g : Folder) : Folder :=
   { g with deleted := false,
-           restoreCountdown := if g.restoreCountdown ≤ 0 then g.restoreDuration else g.restoreCountdown }
+           restoreCountdown := if g.restoreCountdown ≤ 0 then max g.restoreDuration 1 else g.restoreCountdown }
 
 /-- `Folder._restoring_timestep`: decrement-then-test; on completion restore every live file (a repair) and then every
 file that was in `deleted_files` when the loop started, each *by name*; then clear the folder's flag. -/
